@@ -11,8 +11,9 @@ import (
 
 func init() {
 	extraSources = append(extraSources, func(rng *rand.Rand) (string, []string, bool) {
-		// comments in every position the generator can name, on two programs out of three
-		p := gen.New(rng, gen.Options{EgoOnly: true, Comments: rng.Intn(3) != 0, MaxStmts: 10 + rng.Intn(30)})
+		// comments in every position the generator can name on half of the programs; the
+		// others get all their comments from this package's decorator
+		p := gen.New(rng, gen.Options{EgoOnly: true, Comments: rng.Intn(2) == 0, MaxStmts: 10 + rng.Intn(30)})
 		if p.Ego == "" {
 			return "", nil, false
 		}
